@@ -105,12 +105,15 @@ class Oracle(graph.Oracle):
         if name in ('StepKw', 'SolveKw') and ('penalty' in op[1] or 'constraints' in op[1]):
             self.seg_start = len(b['ehist'])      # the objective changed before the iteration(s) of this call
         eh = a['ehist']
-        seg = eh[self.seg_start:]
-        for i in range(1, len(seg)):
-            if _scal(seg[i]) > _scal(seg[i - 1]):
+        # (a collapse pins parameters, i.e. changes the constraints: each one applied starts a new segment)
+        cuts = sorted(set([self.seg_start] + [m for m in getattr(lab, 'collapse_marks', ()) if m > self.seg_start])) + [len(eh)]
+        for s0, s1 in zip(cuts, cuts[1:]):
+            seg = eh[s0:s1]
+            bad = next((i for i in range(1, len(seg)) if _scal(seg[i]) > _scal(seg[i - 1])), None)
+            if bad is not None:
                 out.append(({'clause': 'monotone'},
                             'energy_history rises from %r to %r at index %d (segment starts at %d)'
-                            % (seg[i - 1], seg[i], self.seg_start + i, self.seg_start)))
+                            % (seg[bad - 1], seg[bad], s0 + bad, s0)))
                 break
         if eh and a['inner'] and not _same(eh[-1], a['bestE']):
             out.append(({'clause': 'history_last'}, 'energy_history[-1]=%r but bestEnergy=%r' % (eh[-1], a['bestE'])))
@@ -161,6 +164,33 @@ def shard(item):
     return T
 
 
+# (C) runs whose termination collapses parameters and continues inside one Solve (the second loop of _Solve)
+COLLAPSE_HISTORIES = [
+    [['Solve']],
+    [['Step'], ['Step'], ['Solve']],
+    [['Solve'], ['Solve']],
+    [['SolveKw', {'EvaluationMonitor': 'Monitor'}]],
+    [['Step']] * 12 + [['Solve']],
+]
+
+
+def shard_collapse(item):
+    cfg = item[0]
+    T = Tally()
+    for ops in COLLAPSE_HISTORIES:
+        lab, _ = graph.run_history(cfg, ops, Oracle, T, keep_lab=True)
+        marks = len(lab.collapse_marks)
+        T.hist('C_collapses_applied_in_history', min(marks, 3))
+        if marks > 0:
+            T.nontriv(('collapse', cfg['solver'], cfg['term'], cfg['cost'], repr(ops)))
+    T.sample({'cfg': cfg, 'ops': COLLAPSE_HISTORIES[0]})
+    return T
+
+
+def shard_any(item):
+    return shard_collapse(item) if item[-1] == 'collapse' else shard(item)
+
+
 def configs(ctx):
     out = []
     costs = ['sphere', 'steps', 'infwall']
@@ -191,7 +221,14 @@ def run(ctx):
                 "canonical snapshot (best, population, energies, counters, monitor contents, call count) after an operation; "
                 "distinct_nontrivial counts (configuration, first operation) shards, each of which runs 10^(depth-1) histories")
     ctx.assumptions = ['iterations are counted by wrapping the bound _Step on the instance', 'in-process map only']
-    ctx.pmap(shard, items)
+    for solver in solverlab.SOLVERS:
+        for term in ('collapse_at', 'collapse_as'):
+            for cost, dim in (('sphere', 3), ('illq', 3)) + ((('rosen', 3),) if ctx.thorough else ()):
+                for em, sm in (('Monitor', 'Monitor'), ('default', 'default')):
+                    items.append(({'solver': solver, 'dim': dim, 'cost': cost, 'seed': ctx.seed, 'term': term, 'limits': [150, 6000],
+                                   'evalmon': em, 'stepmon': sm, 'horizon': 20000}, 'collapse'))
+    ctx.bounds['collapse_histories'] = COLLAPSE_HISTORIES
+    ctx.pmap(shard_any, items)
 
 
 def replay(case):
